@@ -1,2 +1,38 @@
-(* placeholder until the theorems are integrated *)
-From SE Require Import Spec.MapperSpec.
+(* C14 - Configuration reload is all-or-nothing (sequential part; the atomicity of the swap under
+   concurrent lookups is the generated lock obligation of Properties/C20.v).
+   Specification: Spec/MapperSpec.v - spec_step: an invalid configuration changes nothing
+   (LErr leaves the state), a valid one replaces the whole state, lookups are answered by
+   spec_lookup of the last configuration that loaded (the same function a fresh mapper uses). *)
+From SE Require Import Spec.MapperSpec Proofs.FsmProofs Proofs.MapperProofs.
+
+Theorem C14_reload_all_or_nothing : forall uni_word re_match heur_bt re_compiles CS c_get c_add c_reset,
+  forall holds, cache_sound CS c_get c_add c_reset holds ->
+  forall (cache0 : option CS), (forall s, cache0 = Some s -> forall k v, ~ holds s k v) ->
+  forall ops, forallb valid_op ops = true ->
+  impl_run uni_word re_match heur_bt re_compiles CS c_get c_add c_reset (new_mapper CS cache0) ops
+  = spec_run uni_word re_match re_compiles None ops.
+Proof.
+  intros. eapply mapper_refines_spec_from_fsm; eauto using fsm_first_match_ok, fsm_most_specific_ok.
+Qed.
+Print Assumptions C14_reload_all_or_nothing.
+
+(* corollary on the specification: after a successful reload the answers depend on the new file
+   only - exactly those of a freshly started mapper *)
+Theorem C14_fresh_after_reload : forall uni_word re_match re_compiles st ast c ops,
+  load re_compiles ast = LOk c ->
+  spec_run uni_word re_match re_compiles st (OReload ast :: ops)
+  = spec_run uni_word re_match re_compiles None (OReload ast :: ops).
+Proof. intros. cbn [spec_run spec_step]. rewrite H. reflexivity. Qed.
+Print Assumptions C14_fresh_after_reload.
+
+(* ... and a failed reload is a no-op *)
+Theorem C14_failed_reload_noop : forall uni_word re_match re_compiles st ast e ops,
+  load re_compiles ast = LErr e ->
+  spec_run uni_word re_match re_compiles st (OReload ast :: ops)
+  = OutLoad (Some e) :: spec_run uni_word re_match re_compiles st ops.
+Proof. intros. cbn [spec_run spec_step]. rewrite H. reflexivity. Qed.
+Print Assumptions C14_failed_reload_noop.
+
+Example C14_invalid_configs_exist :
+  load (fun _ => true) Unparsable = LErr EYaml.
+Proof. reflexivity. Qed.
